@@ -574,7 +574,7 @@ pub fn main(o: &Opts) {
                 vec![format!("unix ids {rt} threads=8 per=16 rounds={rounds} n={n} => ids={}", if n == d { "distinct".to_string() } else { format!("dup:{}", n - d) })]
             });
         }
-        for (n, size) in [(130usize, 40usize), (70, 180), (300, 10)] {
+        for (n, size) in [(130usize, 40usize), (70, 180), (200, 10)] {
             em.case(|| {
                 let (done, got) = if rt == "tokio" { pollonce_tokio(n, size) } else { pollonce_smol(n, size) };
                 vec![format!("unix pollonce {rt} n={n} size={size} => done={done} got={}", got.join(","))]
